@@ -27,6 +27,50 @@ CHECKS = {
     ),
 }
 
+CHECKS.update({
+    "C01": (
+        "exploration",
+        "round-trip property testing: Hypothesis-generated module specs x encoder "
+        "options, oracle = independent normaliser + exact-type structural comparison",
+        "Thousands of generated modules per encoder (hazard-pool strings, temporals "
+        "with naive/UTC/offset zones, quantities, nested sequences/sets/blocks, "
+        "duplicate keys) are dumped with random encoder options and re-read by the "
+        "strict parser of the same dialect under a token-pull budget; the result "
+        "must equal the original up to the normalisations the property lists. "
+        "Sampled, not exhaustive.",
+        "Trusted: vlib/normalise.py (string folding and zone rules re-implemented "
+        "from the property text and decoder docstrings), the generator's notion of "
+        "'values a dialect can represent'.",
+        "DESIGN.md 4/C01",
+    ),
+    "C02": (
+        "exploration",
+        "round-trip property testing against the default permissive loader, "
+        "including the literal pvl.loads(pvl.dumps(m)) path",
+        "Same generated domain as C01; every emitted text is read by a budgeted "
+        "twin of the default loader and then by the real pvl.loads(text) call; "
+        "content must equal the normalised original and module.errors must be "
+        "empty. Sampled, not exhaustive.",
+        "Trusted: as C01, plus the documented dash-continuation rewrite of "
+        "OmniParser.parse treated as a normalisation of string content.",
+        "DESIGN.md 4/C02",
+    ),
+    "C11": (
+        "exploration",
+        "property testing of copy/deepcopy/pickle with follow-up mutation "
+        "histories; oracle = harness snapshots before/after and the C10 accessor "
+        "invariant",
+        "Generated nested containers of all four classes are copied by each of "
+        "nine mechanisms; equality, class at every level, integrity of the "
+        "original and independence under generated mutation histories on either "
+        "side (top level for shallow kinds, nested containers/lists for deep "
+        "kinds) are checked. Sampled.",
+        "Trusted: the recursive snapshot function; shallow copies are only "
+        "required to be independent at the top level.",
+        "DESIGN.md 4/C11",
+    ),
+})
+
 PENDING = {}   # id -> reason while a check is not built yet
 
 
